@@ -13,9 +13,9 @@ go build ./... || { echo "BUILD FAILED"; exit 1; }
 mv "$DEMO" /tmp/zz_seed_demo_test.go.hold
 /verif/tools/baseline.sh "$W"; B=$?
 mv /tmp/zz_seed_demo_test.go.hold "$DEMO"
-(cd "$PKG" && go test -vet=off -count=1 -timeout 5m -run 'TestSeedDemo|TestSeed' . > /tmp/seed_with.log 2>&1); WITH=$?
+(cd "$PKG" && go test -vet=off -count=1 -timeout 5m -run 'Seed' . > /tmp/seed_with.log 2>&1); WITH=$?
 git apply -R patch.diff
-(cd "$PKG" && go test -vet=off -count=1 -timeout 5m -run 'TestSeedDemo|TestSeed' . > /tmp/seed_without.log 2>&1); WITHOUT=$?
+(cd "$PKG" && go test -vet=off -count=1 -timeout 5m -run 'Seed' . > /tmp/seed_without.log 2>&1); WITHOUT=$?
 git apply patch.diff
 echo "baseline_with_change_rc=$B demo_with_change_rc=$WITH demo_without_change_rc=$WITHOUT"
 tail -3 /tmp/seed_with.log; tail -2 /tmp/seed_without.log
